@@ -294,6 +294,21 @@ def coverageCase (toks : List String) : String :=
     else s!"{head} nosession"
   | _ => "bad-op"
 
+/-! ### stager bounds -/
+
+def stagerCase (toks : List String) : String :=
+  match toks with
+  | fr :: blocks =>
+    let bs := blocks.filterMap fun b =>
+      match b.splitOn ":" with
+      | [t, mn, mx, k] => some ({ tid := nat! t, min := int! mn, max := int! mx, known := k == "1" } : SBlock)
+      | _ => none
+    let st := bs.foldl StagerState.stage {}
+    let gs := st.groups.reverse.map fun g =>
+      s!"{g.tid}[{g.minTS},{g.maxTS},{b01 g.valid},{b01 (g.eligible (int! fr))}]"
+    s!"{" ".intercalate gs} ord={b01 st.invalidOrder} meta={b01 st.invalidMetadata}"
+  | _ => "bad-op"
+
 def handle (line : String) : String :=
   match words line with
   | "gr" :: rest => guardCase rest {}
@@ -304,6 +319,7 @@ def handle (line : String) : String :=
   | "sp" :: rest => searchCase rest
   | "pb" :: rest => partCase rest
   | "cv" :: rest => coverageCase rest
+  | "sg" :: rest => stagerCase rest
   | _ => "bad-op"
 
 def main : IO Unit := runDriver handle
